@@ -9,15 +9,18 @@ TRUSTED = [
     "Coq 8.16.1 kernel + vm_compute (evaluation of the model on the tie cases; no native_compute)",
     "tools/extractors/c18.py transcribes the constant (size, align) arms of layout_of (air/src/layout.rs) and the AirType "
     "variant list (air/src/lib.rs) into Extracted/LayoutTable.v; it fails when an arm is not a constant or a variant is new",
-    "Model/Layout.v is a hand model of compute_layouts/resolved_layout/struct_layout/align_to/detect_self_references/"
-    "topological_order (names as numbers, HashMap as association list, HashSet as duplicate-free list); tied by hx_layout on "
-    "every run in the dev profile (overflow checks = panics) and the release profile (u32 wrap-around)",
+    "Model/Layout.v is a hand model of try_compute_layouts/resolved_layout/array_layout/struct_layout/align_to/"
+    "detect_self_references/topological_order (names as numbers, HashMap as association list, HashSet as duplicate-free list, "
+    "checked u32 arithmetic as unbounded arithmetic with a < 2^32 test); tied by hx_layout on every run in the dev and the "
+    "release profile through compute_layouts, the panicking wrapper whose message is the LayoutError's Display text",
     "Model/SysV.v (the specification the theorems compare against) is an arithmetic statement of the psABI struct rules with "
     "its own table of C scalar types; it is validated, not proved, against clang 14 -target x86_64-linux-gnu "
     "(__builtin_offsetof/sizeof/_Alignof of generated C translations); the C translation maps Str/FnPtr/Param to pointers, "
     "Slice to struct{void*;unsigned long}, Void to the GNU C empty struct, Array(t,0) to a GNU zero-length array",
     "spec fuel: c_struct is evaluated with fuel = #structs + 1; by c_struct_sa_mono any defined answer is the answer for all larger fuel",
-    "panic-with-diagnostic-message under catch_unwind is counted as `diagnosed` (whether a panic is acceptable is property C07)",
+    "error kinds are recognised by the diagnostic text (`has infinite size`, `recursive struct cycle`, `referenced before`, "
+    "`is too large`); that the driver pipeline returns them as PipelineError values (no panic) is probed on three source "
+    "programs per run (--api-probe), not proved",
 ]
 
 IMPORTS = ("From Aelys Require Import Extracted.LayoutTable Model.Layout Model.SysV Model.LayoutObs.\n"
@@ -193,18 +196,21 @@ def direct_oracle(prog, obs):
         return None                     # undefined by-value names: outside the property's domain; tie only
     spec = py_spec(prog)
     big = max([0] + [v[3] for v in spec.values()])
-    near_overflow = big + 8 >= W32
+    if big >= W32:
+        # some struct or array does not fit u32: must be diagnosed, never laid out
+        if kind != "OTooLarge":
+            return ("too-large-not-diagnosed:" + kind,
+                    f"a size of {big} bytes does not fit u32 but compute_layouts gave {obs[:100]}")
+        return None
+    if kind == "OTooLarge":
+        return ("false-too-large", f"every size fits u32 (largest {big}) but the definitions were rejected as too large")
     if kind == "OLaid":
         want = [spec[n][0] for n in names]
         if offs == want:
             return None
-        if near_overflow:
-            return ("layout-u32-overflow:wrap", f"a size of {big} bytes wraps in u32: offsets {offs} instead of {want}")
         for i, n in enumerate(names):
             if offs[i] != want[i]:
                 return ("layout-mismatch", f"struct S{n}: offsets {offs[i]} but the C ABI gives {want[i]}")
-    if kind == "OOverflow" and near_overflow:
-        return ("layout-u32-overflow:panic", f"a size of {big} bytes overflows u32 arithmetic (arithmetic-overflow panic)")
     if kind == "ODiag":
         return ("false-diagnosis", "acyclic definitions diagnosed as recursive")
     return ("layout-failure:" + kind, f"acyclic, fully defined structs but compute_layouts gave {kind}")
@@ -371,7 +377,17 @@ def run(ctx):
             ctx.broken.append(f"harness profile {prof}: overflow checks are {'on' if chk else 'off'}, expected the opposite")
         for n in notes:
             if n.startswith("api-probe"):
-                ctx.cov.setdefault("c07_api_probe", []).append(n[len("api-probe "):])
+                txt = n[len("api-probe "):]
+                ctx.cov.setdefault("pipeline_api_probe", []).append(txt)
+                what, _, res = txt.partition(": ")
+                what = what.split()[-1]
+                good = res.startswith("ok") if what == "ok" else res.startswith("error:")
+                if what == "toolarge" and "too large" not in res:
+                    good = False
+                if not good:
+                    ctx.violation("pipeline-diagnostic:" + what + (":panic" if res.startswith("PANIC") else ""),
+                                  "the driver's standard pipeline does not turn a malformed struct definition into an error value",
+                                  {"probe": txt, "profile": prof})
         total += len(cases)
         for q, o, comp, cls in cases:
             dist[cls] = dist.get(cls, 0) + 1
@@ -400,12 +416,10 @@ def run(ctx):
                 a = dict(zip([n for n, _ in last_wf[0]], o1 or []))
                 b = dict(zip([n for n, _ in prog], o2 or []))
                 if (k1 != k2 or a != b) and "order-dependence" not in reported:
-                    big = max([0] + [v[3] for v in py_spec(prog).values()])
-                    if big + 8 < W32:
-                        reported.add("order-dependence")
-                        oracle_fail += 1
-                        ctx.violation("order-dependence", "the same struct definitions in two declaration orders give different layouts",
-                                      {"order1": last_wf[2], "result1": last_wf[1], "order2": comp, "result2": o, "profile": prof})
+                    reported.add("order-dependence")
+                    oracle_fail += 1
+                    ctx.violation("order-dependence", "the same struct definitions in two declaration orders give different layouts",
+                                  {"order1": last_wf[2], "result1": last_wf[1], "order2": comp, "result2": o, "profile": prof})
             if prof == "dev" and cls in ("wf", "wf-probes", "ptrcycle"):
                 wf_progs.append(prog)
         # ---- contract tie: the Coq model reproduces every observation
@@ -495,5 +509,5 @@ def run(ctx):
         "by-value nesting along a random rank order; each well-formed graph in three declaration orders (dependencies first / "
         "reversed / shuffled) plus a probe program that exposes sizeof and alignof of every struct as offsets; malformed streams: "
         "duplicate names, undefined names, direct self reference (also through arrays), by-value cycles of length 2-5, legal pointer "
-        "cycles, sizes around 2^32 (huge arrays, 27-31 level doubling chains); layout_of on random types; both arithmetic modes "
-        "(dev = overflow panics, release = wrap). distinct = distinct (profile, program) pairs with at least one field")
+        "cycles, sizes around 2^32 (huge arrays, 27-31 level doubling chains); layout_of on random types; dev and release "
+        "profiles. distinct = distinct (profile, program) pairs with at least one field")
